@@ -667,6 +667,16 @@ impl StringLiteralToken<&str> {
         let mut segments = Vec::new();
 
         let chars = self.0.chars().collect::<Vec<_>>();
+        // Spans are byte offsets into the source, while `pos` counts characters:
+        // `at(n)` is the byte offset of the n-th character of the literal's
+        // content (or its byte length), plus one for the opening quote.
+        let offsets = self
+            .0
+            .char_indices()
+            .map(|(offset, _)| offset)
+            .chain(std::iter::once(self.0.len()))
+            .collect::<Vec<_>>();
+        let at = |n: usize| offsets[n.min(offsets.len() - 1)] + 1;
         let mut template = false;
         let mut current = String::new();
 
@@ -679,7 +689,10 @@ impl StringLiteralToken<&str> {
                         let seg = std::mem::take(&mut current);
                         segments.push(StringSegment::Template(
                             seg.trim().to_string(),
-                            Span::new(pos - seg.chars().count() - 1, pos + 3) + span.start(),
+                            Span::new(
+                                at((pos - seg.chars().count()).saturating_sub(2)),
+                                at(pos + 2),
+                            ) + span.start(),
                         ));
                     }
                     template = false;
@@ -707,7 +720,7 @@ impl StringLiteralToken<&str> {
                         let seg = std::mem::take(&mut current);
                         segments.push(StringSegment::Literal(
                             unescape_string_literal(&seg),
-                            Span::new(pos - seg.chars().count() + 1, pos + 1) + span.start(),
+                            Span::new(at(pos - seg.chars().count()), at(pos)) + span.start(),
                         ));
                     }
                     template = true;
@@ -723,7 +736,7 @@ impl StringLiteralToken<&str> {
         if !template && !current.is_empty() {
             segments.push(StringSegment::Literal(
                 unescape_string_literal(&current),
-                Span::new(pos - current.chars().count() + 1, pos + 1) + span.start(),
+                Span::new(at(pos - current.chars().count()), at(pos)) + span.start(),
             ));
         }
 
